@@ -67,6 +67,7 @@ class NetWorld(World):
                  "tracklib.algo.dynamics.HMM", "tracklib.util.geometry", "tracklib.io.NetworkWriter / NetworkReader",
                  "tracklib.core.Track (reverse, +, >) used to chain geometries"],
         "stub": ["disk used by the reload step: in-memory SimFS with fault plan", "stdout of tracklib: discarded"]}
+    STATE_MEASURE = "per session: (nodes up to 4, edges up to 6, spatial index exists, prepared table exists, grown since prepare, exact dyadic weights)"
     ASSUMPTIONS = [
         "sessions interleave at whole-API-call granularity (module globals of mapping are rebuilt per call)",
         "explicit weights are small dyadic rationals (sums exact); after a reload weights are geometric lengths and "
